@@ -320,6 +320,68 @@ def compare(driver, streams):
     return agree, alldis
 
 
+def compare_stream(driver, s):
+    """one shard: (agreements, [disagreement dicts])"""
+    exp = [r for (_, r) in s.pairs]
+    got = run_driver(driver, s.m) if s.m else []
+    dis = []
+    if len(got) != len(exp):
+        dis.append({'kind': 'line-count', 'impl_lines': len(exp), 'model_lines': len(got)})
+    n = min(len(got), len(exp))
+    tdefs = {}
+    ti = 0
+    bad = 0
+    for j in range(n):
+        if got[j] != exp[j]:
+            bad += 1
+            if len(dis) < 200:
+                mi = s.pairs[j][0]
+                while ti <= mi:
+                    if s.m[ti].startswith('T '):
+                        parts = s.m[ti].split(' ', 2)
+                        tdefs[parts[1]] = parts[2]
+                    ti += 1
+                op = s.m[mi]
+                toks = op.split(' ')
+                tid = toks[2] if toks[0] == 'fault' else (toks[1] if len(toks) > 1 else '')
+                dis.append({'kind': 'result', 'op': op[:20000], 'type': tdefs.get(tid, '?'), 'impl': exp[j][:20000], 'model': got[j][:20000]})
+    return n - bad, dis
+
+
+class Summary:
+    """what is kept of one shard's run once its output has been compared and dropped"""
+    pass
+
+
+def pipeline(cmds, driver, timeout=7200):
+    """run each command (a harness shard), compare its M/I lines with the driver, keep a summary only:
+    the raw output of a thorough run is gigabytes and must not be held for all shards at once"""
+    def one(cmd):
+        try:
+            rc, out, err = run_proc(cmd, timeout=timeout)
+        except subprocess.TimeoutExpired:
+            rc, out, err = 124, '', 'timeout'
+        s = parse_stream(out, rc, err)
+        del out
+        u = Summary()
+        u.x = s.x[:500]
+        u.x_total = len(s.x)
+        u.stats = s.stats
+        u.crash = s.crash
+        u.n_pairs = len(s.pairs)
+        u.distinct = len({hash(s.m[mi]) for (mi, _) in s.pairs})
+        u.distinct_nontrivial = len({hash(s.m[mi]) for (mi, r) in s.pairs if not r.startswith('err UnexpectedEncodingType')})
+        u.samples = [{'op': s.m[mi][:300], 'impl': r[:300]} for (mi, r) in (s.pairs[:2] + s.pairs[-1:])]
+        u.agree, u.dis = (0, [])
+        u.compared = False
+        if driver is not None:
+            u.agree, u.dis = compare_stream(driver, s)
+            u.compared = True
+        return u
+    with cf.ThreadPoolExecutor(max_workers=JOBS) as ex:
+        return list(ex.map(one, cmds))
+
+
 def merge_stats(streams):
     st = {}
     for s in streams:
